@@ -396,6 +396,15 @@ func (w *WEval) eval1(v ssa.Value) *Lay {
 			}
 		}
 	}
+	if mk, ok := v.(*ssa.MakeSlice); ok {
+		// make([]byte, l, c) with a run-time capacity: l zero bytes (the capacity is only a hint)
+		if k, isK := constInt(mk.Len); isK {
+			if k.Int64() == 0 {
+				return seqOf()
+			}
+			return &Lay{K: "zero", W: int(k.Int64())}
+		}
+	}
 	return unk("unrecognised producer %T (%s)", v, v.Name())
 }
 
@@ -850,8 +859,17 @@ func (w *WEval) rangeTerm(b *ssa.BasicBlock) string {
 			}
 		}
 	}
-	// counted loop: for i := 0; i < n; i++
+	// counted loop: for i := 0; i < len(coll); i++ visits the same elements in the same order as a range loop
 	if iff, ok := b.Instrs[len(b.Instrs)-1].(*ssa.If); ok {
+		if bo, isBo := iff.Cond.(*ssa.BinOp); isBo && bo.Op == token.LSS {
+			if ph, isPh := bo.X.(*ssa.Phi); isPh && ph.Block() == b && phiStartsAt(ph, 0) && phiStepsByOne(ph, b) {
+				if ln, isC := bo.Y.(*ssa.Call); isC {
+					if bi, isB := ln.Call.Value.(*ssa.Builtin); isB && bi.Name() == "len" {
+						return w.term(ln.Call.Args[0])
+					}
+				}
+			}
+		}
 		return "while " + w.term(iff.Cond)
 	}
 	return "?"
@@ -877,8 +895,9 @@ func (w *WEval) selectOver(start, stop *ssa.BasicBlock, leaf func(*DPath) *Lay) 
 				continue
 			}
 		}
-		// prune by valuation and collect literals
-		var conj []condLit
+		// prune by valuation and collect literals; a named boolean (a phi of && / || computed before the
+		// start block) is expanded into the conditions it stands for
+		conjs := [][]condLit{nil}
 		dead := false
 		for _, pc := range d.Conds {
 			if pc.At != nil && isLoopHeader(pc.At.Block()) {
@@ -894,9 +913,23 @@ func (w *WEval) selectOver(start, stop *ssa.BasicBlock, leaf func(*DPath) *Lay) 
 					continue
 				}
 			}
-			conj = append(conj, condLit{Atom: w.atomString(pc.Cond), Truth: pc.Truth})
+			if ph, isPhi := pc.Cond.V.(*ssa.Phi); isPhi {
+				if dnf, ok := w.expandBoolPhi(ph, pc.Truth, 0); ok {
+					var next [][]condLit
+					for _, cj := range conjs {
+						for _, alt := range dnf {
+							next = append(next, append(append([]condLit{}, cj...), alt...))
+						}
+					}
+					conjs = next
+					continue
+				}
+			}
+			for i := range conjs {
+				conjs[i] = append(conjs[i], condLit{Atom: w.atomString(pc.Cond), Truth: pc.Truth})
+			}
 		}
-		if dead {
+		if dead || len(conjs) == 0 {
 			continue
 		}
 		l := leaf(d)
@@ -910,7 +943,7 @@ func (w *WEval) selectOver(start, stop *ssa.BasicBlock, leaf func(*DPath) *Lay) 
 			groups[k] = g
 			order = append(order, k)
 		}
-		g.Conds = append(g.Conds, conj)
+		g.Conds = append(g.Conds, conjs...)
 	}
 	if len(order) == 0 {
 		return unk("no feasible path")
@@ -1080,4 +1113,131 @@ func isLenCall(v ssa.Value) bool {
 	}
 	b, ok := c.Call.Value.(*ssa.Builtin)
 	return ok && b.Name() == "len"
+}
+
+// expandBoolPhi: the conditions under which a boolean phi (the merge of a short-circuit && / ||, possibly
+// bound to a named local) has the value want, as a disjunction of conjunctions of branch conditions taken
+// between the phi block's immediate dominator and the phi.
+func (w *WEval) expandBoolPhi(ph *ssa.Phi, want bool, depth int) ([][]condLit, bool) {
+	if depth > 4 {
+		return nil, false
+	}
+	b := ph.Block()
+	root := b.Idom()
+	if root == nil {
+		return nil, false
+	}
+	type arrival struct {
+		conds []condLit
+		pred  *ssa.BasicBlock
+	}
+	var arrivals []arrival
+	okEnum := true
+	var walk func(x *ssa.BasicBlock, acc []condLit, seen map[*ssa.BasicBlock]bool)
+	walk = func(x *ssa.BasicBlock, acc []condLit, seen map[*ssa.BasicBlock]bool) {
+		if len(arrivals) > 64 || seen[x] {
+			okEnum = len(arrivals) <= 64
+			return
+		}
+		seen[x] = true
+		defer func() { seen[x] = false }()
+		step := func(s *ssa.BasicBlock, extra *condLit) {
+			a := acc
+			if extra != nil {
+				a = append(append([]condLit{}, acc...), *extra)
+			}
+			if s == b {
+				arrivals = append(arrivals, arrival{a, x})
+				return
+			}
+			if root.Dominates(s) && s != root {
+				walk(s, a, seen)
+			}
+		}
+		switch t := x.Instrs[len(x.Instrs)-1].(type) {
+		case *ssa.Jump:
+			step(x.Succs[0], nil)
+		case *ssa.If:
+			cond, neg := t.Cond, false
+			for {
+				if u, isU := cond.(*ssa.UnOp); isU && u.Op == token.NOT {
+					cond, neg = u.X, !neg
+					continue
+				}
+				break
+			}
+			if inner, isPhi := cond.(*ssa.Phi); isPhi {
+				_ = inner
+				okEnum = false
+				return
+			}
+			atom := w.term(cond)
+			step(x.Succs[0], &condLit{Atom: atom, Truth: !neg})
+			step(x.Succs[1], &condLit{Atom: atom, Truth: neg})
+		}
+	}
+	walk(root, nil, map[*ssa.BasicBlock]bool{})
+	if !okEnum || len(arrivals) == 0 {
+		return nil, false
+	}
+	var out [][]condLit
+	for _, a := range arrivals {
+		idx := -1
+		for i, p := range b.Preds {
+			if p == a.pred {
+				idx = i
+			}
+		}
+		if idx < 0 {
+			return nil, false
+		}
+		e := ph.Edges[idx]
+		neg := false
+		for {
+			if u, isU := e.(*ssa.UnOp); isU && u.Op == token.NOT {
+				e, neg = u.X, !neg
+				continue
+			}
+			break
+		}
+		switch v := e.(type) {
+		case *ssa.Const:
+			if v.Value == nil || v.Value.Kind() != constant.Bool {
+				return nil, false
+			}
+			if (constant.BoolVal(v.Value) != neg) == want {
+				out = append(out, a.conds)
+			}
+		case *ssa.Phi:
+			sub, ok := w.expandBoolPhi(v, want != neg, depth+1)
+			if !ok {
+				return nil, false
+			}
+			for _, alt := range sub {
+				out = append(out, append(append([]condLit{}, a.conds...), alt...))
+			}
+		default:
+			out = append(out, append(append([]condLit{}, a.conds...), condLit{Atom: w.term(e), Truth: want != neg}))
+		}
+	}
+	return out, true
+}
+
+// phiStepsByOne: every back edge of header h carries ph + 1.
+func phiStepsByOne(ph *ssa.Phi, h *ssa.BasicBlock) bool {
+	n := 0
+	for i, p := range h.Preds {
+		if !h.Dominates(p) {
+			continue
+		}
+		bo, ok := ph.Edges[i].(*ssa.BinOp)
+		if !ok || bo.Op != token.ADD || bo.X != ssa.Value(ph) {
+			return false
+		}
+		if k, isK := constInt(bo.Y); !isK || k.Int64() != 1 {
+			return false
+		}
+		n++
+	}
+	return n > 0
 }
